@@ -2,7 +2,7 @@
    Statements only; each proof is one [exact] of a lemma in Proofs/ or Base/. *)
 From Coq Require Import List Bool Ascii String Arith.
 From XV Require Import Base.Res Base.Assoc Base.Regex Model.Axis Model.Signature Spec.S15
-     Proofs.RegexNorm Proofs.Tie_signature Proofs.P15_equiv Generated.G3.
+     Proofs.RegexNorm Proofs.Tie_signature Proofs.P15_equiv Proofs.P15_roundtrip Generated.G3.
 Import ListNotations.
 Open Scope list_scope.
 
@@ -25,7 +25,28 @@ Theorem C15_equiv : forall na nb, List.length na = List.length nb ->
    forall p q, In p (combine na nb) -> In q (combine na nb) -> (fst p = fst q <-> snd p = snd q)).
 Proof. exact numbering_iff_pattern. Qed.
 
+(* (A) every well-formed signature (at least one input and one output argument, names
+   non-empty words) prints to a text that parses back to exactly that signature -- for any
+   number of arguments, pairs and names; hence different signatures never print alike. *)
+Theorem C15_roundtrip : forall s, wf_sig s -> parse_string (print_sig s) = Ok s.
+Proof. exact parse_print. Qed.
+
+Theorem C15_print_injective : forall s1 s2, wf_sig s1 -> wf_sig s2 -> print_sig s1 = print_sig s2 -> s1 = s2.
+Proof. exact print_injective. Qed.
+
+(* (B) a text outside the grammar (blanks aside) is rejected with ValueError, whatever it is. *)
+Theorem C15_reject : forall text,
+  ~ lang SIGNATURE (remove_spaces (chars text)) -> parse_string text = Err ValueError.
+Proof.
+  intros text H. unfold parse_string.
+  destruct (matches SIGNATURE (remove_spaces (chars text))) eqn:E; [|reflexivity].
+  exfalso. apply H. apply matches_spec. exact E.
+Qed.
+
 Print Assumptions C15_tie.
+Print Assumptions C15_roundtrip.
+Print Assumptions C15_print_injective.
+Print Assumptions C15_reject.
 Print Assumptions C15_matcher.
 Print Assumptions C15_equiv.
 
